@@ -176,8 +176,8 @@ def check_known(binary, cfg, prop, lines):
                 viol.append((dst, f"pinned reproducer of {f['id']} fails with an unlisted discrepancy"))
             else:
                 log(f"note: open finding {f['id']} no longer reproduces on this tree")
-        else:  # fixed: must pass
-            if rc != 0 or "REPLAY-FAIL" in out or sigs:
+        else:  # fixed: must pass (an open finding that the same input also shows is that finding's business)
+            if rc != 0 or "REPLAY-FAIL" in out:
                 dst = save_replay(prop, path)
                 log(out[-3000:])
                 viol.append((dst, f"regression: fixed finding {f['id']} is back"))
